@@ -525,5 +525,63 @@ class SecondAnonymizer(Part):
         return res
 
 
+class HashCollisions(Part):
+    name = "words_whose_hashes_collide"
+    desc = "owned md5: two or three listed words whose digests share the pseudonym-length prefix (or are equal); every order of lines on one anonymizer gives each word the pseudonym a fresh anonymizer gives it"
+
+    def __init__(self, tier, seed):
+        self.tier, self.seed = tier, seed
+
+    def cases(self):
+        return [{"kind": k} for k in ("same-prefix", "equal-digest", "prefix-chain")]
+
+    def run(self, case):
+        from netconan.anonymize_files import FileAnonymizer
+
+        res = Res()
+        words = ["zulu", "yankee", "xray"]
+        table = {"same-prefix": {"zulu": 0xABCDEF << 104 | 1, "yankee": 0xABCDEF << 104 | 2, "xray": 0x123456 << 104},
+                 "equal-digest": {"zulu": 0xABCDEF << 104 | 7, "yankee": 0xABCDEF << 104 | 7, "xray": 0xABCDEF << 104 | 7},
+                 "prefix-chain": {"zulu": 0xABCDEF << 104, "yankee": 0xABCDEF << 104 | 0xBCDEF0 << 80, "xray": 0xBCDEF0 << 104}}[case["kind"]]
+
+        def answer(data):
+            for w, v in table.items():
+                if data.lower().endswith(w.encode()):
+                    return v
+            return None
+
+        def run_hist(lines):
+            with seams.capture_logs():
+                fa = FileAnonymizer(anon_pwd=False, anon_ip=False, salt="saltForTest", sensitive_words=list(words))
+                outs = []
+                for ln in lines:
+                    buf = io.StringIO()
+                    fa.anonymize_io(io.StringIO(ln + "\n"), buf)
+                    outs.append(buf.getvalue().rstrip("\n"))
+            return outs
+
+        try:
+            with seams.Md5Stub(answer) as stub:
+                alone = {w: run_hist(["host #%s#" % w])[0] for w in words}
+                for k in (2, 3):
+                    for order in itertools.permutations(words, k):
+                        res.states += 1
+                        got = run_hist(["host #%s#" % w for w in order])
+                        for w, g in zip(order, got):
+                            res.evals += 1
+                            res.transitions += 1
+                            if g != alone[w]:
+                                res.violation("pseudonym-depends-on-words-replaced-earlier|" + case["kind"],
+                                              "after %r the word %r becomes %r, on a fresh anonymizer %r" % (
+                                                  list(order[:order.index(w)]), w, g, alone[w]), case)
+                        res.nt((case["kind"], order))
+                res.out(tuple(sorted(alone.values())))
+                res.count("md5_intercepted", stub.intercepted)
+        finally:
+            seams.restore_globals()
+        res.samples.append({"kind": case["kind"], "alone": alone})
+        return res
+
+
 def parts(tier, seed):
-    return [ListsPart(tier, seed), SecretsPart(tier, seed), SeedPart(tier, seed), HistoryPart(tier, seed), OwnOutputWords(tier, seed), SecondAnonymizer(tier, seed)]
+    return [ListsPart(tier, seed), SecretsPart(tier, seed), SeedPart(tier, seed), HistoryPart(tier, seed), OwnOutputWords(tier, seed), SecondAnonymizer(tier, seed), HashCollisions(tier, seed)]
